@@ -166,6 +166,10 @@ pub mod header {
     pub exec const ACCEPT: HeaderName ensures ACCEPT@ == "accept"@ { HeaderName::from_static("accept") }
     pub exec const CONTENT_LENGTH: HeaderName ensures CONTENT_LENGTH@ == "content-length"@ { HeaderName::from_static("content-length") }
     pub exec const ACCEPT_ENCODING: HeaderName ensures ACCEPT_ENCODING@ == "accept-encoding"@ { HeaderName::from_static("accept-encoding") }
+    pub exec const TRANSFER_ENCODING: HeaderName ensures TRANSFER_ENCODING@ == "transfer-encoding"@ { HeaderName::from_static("transfer-encoding") }
+    pub exec const CONTENT_ENCODING: HeaderName ensures CONTENT_ENCODING@ == "content-encoding"@ { HeaderName::from_static("content-encoding") }
+    pub exec const HOST: HeaderName ensures HOST@ == "host"@ { HeaderName::from_static("host") }
+    pub exec const AUTHORIZATION: HeaderName ensures AUTHORIZATION@ == "authorization"@ { HeaderName::from_static("authorization") }
 }
 pub mod http {
     pub use crate::{HeaderMap, HeaderName, HeaderValue};
